@@ -30,6 +30,22 @@ Theorem C13_unlocked_member_refuted : exists progs sched t1 t2,
 Proof. exact unlocked_member_refuted. Qed.
 Print Assumptions C13_unlocked_member_refuted.
 
+(* what the wrapped allocator sees: the passes through it (thread t enters / thread t leaves) form a serial history under
+   every schedule -- an enter is only ever followed by the leave of the same thread.  The wrapped allocator therefore goes
+   through a sequential history, which is what the theorems of C01..C07 quantify over ("keeps C01") *)
+Theorem C13_wrapped_allocator_sees_serial_history : forall progs sched, (forall t, all_locked (progs t) = true) ->
+  serial None (ctrace (start progs) sched).
+Proof. exact wrapped_allocator_sees_serial_history. Qed.
+Print Assumptions C13_wrapped_allocator_sees_serial_history.
+
+Theorem C13_unlocked_member_not_serial : exists progs sched, ~ serial None (ctrace (start progs) sched).
+Proof. exact unlocked_member_not_serial. Qed.
+Print Assumptions C13_unlocked_member_not_serial.
+
+Example C13_serial_nonvacuous :
+  ctrace (start (fun t => if Nat.ltb t 3 then [BLocked 1; BLocked 2] else [])) [0; 1; 0; 2; 0; 0; 1; 1; 1; 2; 2] = [(0, true); (0, false); (1, true); (1, false)].
+Proof. vm_compute. reflexivity. Qed.
+
 Example C13_nonvacuous :
   let s := crun (start (fun t => if Nat.ltb t 3 then [BLocked 1; BLocked 2] else [])) [0; 1; 0; 2; 0; 0; 1; 1] in
   owner s = Some 1 /\ is_inside (threads s 1) = true /\ is_inside (threads s 0) = false.
